@@ -1,4 +1,4 @@
 SPECIFICATION Spec
-CONSTANT AllPrefixes = FALSE
+CONSTANT AllPrefixes = TRUE
 INVARIANT Inv NoOverrun
 CHECK_DEADLOCK FALSE
